@@ -25,12 +25,50 @@ def universe(tier):
     return specs
 
 
+def fresh_str(v):
+    """The terminal string of v recomputed from fresh run objects (no memo of v or of its runs is consulted)."""
+    from curtsies.formatstring import Chunk
+
+    return "".join(Chunk(str(c.s), dict(c.atts)).color_str for c in v.chunks)
+
+
+DERIVE = (
+    ("bold(v)", lambda v: v.copy_with_new_atts(bold=True)),
+    ("fg=green(v)", lambda v: v.copy_with_new_atts(fg=32)),
+    ("v without fg", lambda v: v.new_with_atts_removed("fg")),
+    ("v*2", lambda v: v * 2),
+    ("v.copy()", lambda v: v.copy()),
+    ("v[0:1]", lambda v: v[0:1]),
+)
+
+
+def build_values(tier):
+    """Universe values plus values derived from *already rendered and hashed* operands (descriptions are JSON-able)."""
+    specs = universe(tier)
+    descs = [C.show_spec(s) for s in specs]
+    vals = [C.build(s) for s in specs]
+    step = 5 if tier == "thorough" else 9
+    for s in specs[::step]:
+        for label, fn in DERIVE:
+            base = C.build(s)
+            str(base), hash(base), len(base), base.s
+            try:
+                vals.append(fn(base))
+                descs.append({"derived": label, "from (rendered first)": C.show_spec(s)})
+            except Exception:  # noqa
+                pass
+    return descs, vals
+
+
 def shard_pairs(args):
     tier, seed, idx = args
     acc = Acc(seed=seed)
-    specs = universe(tier)
-    vals = [C.build(s) for s in specs]
-    strs = [str(v) for v in vals]
+    specs, vals = build_values(tier)
+    show = lambda d: d  # descriptions are already plain data
+    strs = [fresh_str(v) for v in vals]
+    for i, v in enumerate(vals):
+        if idx == 0 and str(v) != strs[i]:
+            acc.failure("C19:terminal_string_memo_differs_from_fresh_rendering", {"f": specs[i]}, "str(f)=%r, fresh rendering %r" % (str(v), strs[i]))
     hashes = [hash(v) for v in vals]
     table = {}
     for i, v in enumerate(vals):
@@ -45,9 +83,9 @@ def shard_pairs(args):
             g = vals[j]
             want = sf == strs[j]
             nontriv = (f.s == g.s and i != j) or want
-            acc.case(nontriv, key=("p", i, j), sample=lambda: {"f": C.show_spec(specs[i]), "g": C.show_spec(specs[j])})
+            acc.case(nontriv, key=("p", i, j), sample=lambda: {"f": specs[i], "g": specs[j]})
             acc.transitions += 1
-            case = {"f": C.show_spec(specs[i]), "g": C.show_spec(specs[j])}
+            case = {"f": specs[i], "g": specs[j]}
             try:
                 eq, ne, eq2 = (f == g), (f != g), (g == f)
             except Exception as ex:  # noqa
@@ -61,12 +99,12 @@ def shard_pairs(args):
         # dictionary / set behaviour
         k = table.get(f)
         if k is None or strs[k] != sf or k != by_str[sf]:
-            acc.failure("C19:dict_lookup", {"f": C.show_spec(specs[i])}, "lookup gave %r, expected index %r" % (k, by_str[sf]))
+            acc.failure("C19:dict_lookup", {"f": specs[i]}, "lookup gave %r, expected index %r" % (k, by_str[sf]))
         if (sf in table) is not True and sf in by_str:
-            acc.failure("C19:dict_lookup_by_str", {"f": C.show_spec(specs[i])}, "plain terminal string not found as key")
+            acc.failure("C19:dict_lookup_by_str", {"f": specs[i]}, "plain terminal string not found as key")
         for s in pool:
             want = sf == s
-            case = {"f": C.show_spec(specs[i]), "s": s}
+            case = {"f": specs[i], "s": s}
             acc.case(want or f.s == s, key=("s", i, s), sample=case)
             acc.transitions += 1
             a, b, c, d = (f == s), (s == f), (f != s), (s != f)
@@ -99,7 +137,7 @@ def shard_repr(args):
     acc = Acc(seed=seed)
     specs = [s for s in universe(tier) if len(s) >= 1]
     for i in range(idx, len(specs), 16):
-        case = {"f": C.show_spec(specs[i]), "op": "repr"}
+        case = {"f": specs[i], "op": "repr"}
         acc.case(True, key=("r", specs[i]), sample=case)
         acc.transitions += 1
         repr_check(acc, C.build(specs[i]), case, ns)
@@ -138,7 +176,8 @@ def run(ctx):
         rep.merge(d, "repr_texts")
     rep.validated = rep.n
     rep.rule = (
-        "all ordered pairs over %d values (U_layout(3,2,P3) + bold=False / run-boundary twins), each value against a pool of plain str "
+        "all ordered pairs over the universe (%d layouts: U_layout(3,2,P3) + bold=False / run-boundary twins) extended with values derived by "
+        "6 operations from already rendered+hashed operands; 'same terminal string' is decided on a fresh rendering from new run objects; each value against a pool of plain str "
         "(texts and terminal strings), dict lookups, repr round trip for every value with >=1 run and for quote/backslash/newline texts x "
         "24 attribute sets; non-trivial pair = same text or equal terminal string; states = distinct reprs" % len(universe(ctx.tier))
     )
